@@ -17,7 +17,13 @@ pub(crate) fn fill_buffer<R: std::io::Read>(
     let mut offset = 0;
     let chunk_size = chunk_size.unwrap_or(buffer.len());
     loop {
-        let read = source.read(&mut buffer[offset..chunk_size])?;
+        let read = match source.read(&mut buffer[offset..chunk_size]) {
+            Ok(read) => read,
+            // nothing was read: repeat the call, as `Read::read_exact` does; returning here
+            // would drop the `offset` bytes gathered so far when the caller tries again
+            Err(e) if e.kind() == std::io::ErrorKind::Interrupted => continue,
+            Err(e) => return Err(e),
+        };
         offset += read;
 
         if read == 0 || offset == chunk_size {
